@@ -5,6 +5,7 @@ package main
 
 import (
 	"fmt"
+	"go/ast"
 	"go/token"
 	"go/types"
 	"sort"
@@ -97,6 +98,9 @@ func (e *Engine) verifyFunc(key string) (res *FuncResult) {
 			penv.vars[k] = v
 		}
 		x.bindResults(penv, c, sig, rets)
+		for _, u := range c.Uses {
+			x.applyUse(penv, c, u)
+		}
 		for _, en := range c.Ensures {
 			g := x.evalClause(penv, c, "ensures "+en.Label, en.Expr)
 			o := &Obligation{Fn: x.key, Kind: "post." + en.Label, Props: c.Props, PC: append([]*Term(nil), st2.pc...), Goal: g, PathID: x.pathID, Inputs: x.inputs}
@@ -110,6 +114,20 @@ func (e *Engine) verifyFunc(key string) (res *FuncResult) {
 		x.frameCheck(st2, penv)
 	})
 	return
+}
+
+// applyUse assumes an instance of a library lemma (the lemma library is assumed, audited by `govc audit`).
+func (x *Exec) applyUse(env *Env, c *Contract, u Clause) {
+	defer func() {
+		if r := recover(); r != nil {
+			if ee, ok := r.(evalError); ok {
+				x.fail("contract %s, use %s: %s", c.Key, u.Src, ee.msg)
+			}
+			panic(r)
+		}
+	}()
+	t := env.applyLemma(u.Expr.(*ast.CallExpr))
+	env.st.assume(t)
 }
 
 // assumeTypeInvs assumes declared type invariants for pointer-typed parameters.
